@@ -783,6 +783,28 @@ def rule_r10(ctx, marker: str) -> RuleResult:
     return rr
 
 
+def stack_cutback(ctx) -> RuleResult:
+    """Part (a) of R10 on its own, for properties that depend on the stacks being back at their entry length after *every*
+    invocation, failed ones included (C09: an entry left behind makes every later invocation of the page a `nested` one,
+    which skips the environment reset and reuses the loaded modules)."""
+    from . import _expand as X_
+
+    rr = RuleResult("C07.R10", "the Lua stacks are cut back to their length at entry", min_instances=2)
+    fn = ctx.fn("luaexec.call_lua_sandbox")
+    for stack in ("lua_env_stack", "lua_frame_stack"):
+        kind, node = X_.lua_stack_cleanup(fn, stack)
+        if kind is None:
+            raise AnalysisError("call_lua_sandbox: clean-up of ctx.{} after the Lua call not recognised".format(stack))
+        if kind == "snapshot":
+            rr.ok("luaexec.call_lua_sandbox", "ctx.{} is cut back to its length at entry".format(stack), {"stack": stack, "cleanup": unparse(node)[:80]})
+        else:
+            rr.bad(Finding("C07.R10", LX, "luaexec.call_lua_sandbox", "{} is not cut back to its length at entry".format(stack),
+                           "after the Lua call ctx.{} is not restored to the length it had at entry on every path (one conditional pop "
+                           "instead of a loop down to the saved length): an invocation that fails after it pushed -- a missing module is "
+                           "reported after `_python_append_env` -- leaves its entry behind".format(stack), node.lineno))
+    return rr
+
+
 def rule_r11(ctx) -> RuleResult:
     """`_lua_invoke` decides from the environment stack whether it is the outermost invocation (and arms / removes the hook, R8).
     While an invocation runs, the only code that may shorten that stack is the clean-up of call_lua_sandbox, bounded by its
